@@ -377,21 +377,67 @@ theorem postprocessed_cz_placed [CommRing R] {L : Layout} (P : Placement ppLayou
   exact implements_place P (by decide) hok hh _ _ _ (fun bo bi hbo hbi => ppcz_amp_tt r h h2 bo bi hbo hbi)
     ps bo bi hbo hbi
 
+/-! ### table form, and the bridge to `GateImpl` (circuits of heralded gates) -/
+
+/-- the logical gate `G` (given on bit lists of the gate's qubits) acting on the selected qubits of the
+processor, identity on the others: the table of the placed gate is `c •` this matrix -/
+def placedGate [Zero R] {Lg L : Layout} (P : Placement Lg L) (G : List Bool → List Bool → R) :
+    Matrix (Fin (basis L.qubits.length).length) (Fin (basis L.qubits.length).length) R :=
+  fun i j =>
+    if ∀ k : Fin L.m, P.g k = none →
+        (encode L ((basis L.qubits.length).getD i.val [])).getD k.val 0 =
+          (encode L ((basis L.qubits.length).getD j.val [])).getD k.val 0
+    then G (P.bits ((basis L.qubits.length).getD i.val [])) (P.bits ((basis L.qubits.length).getD j.val []))
+    else 0
+
+theorem gateTable_place [CommRing R] {Lg L : Layout} (P : Placement Lg L) (hokg : Lg.ok = true)
+    (hok : L.ok = true) (hh : ∀ p ∈ L.heralds, p.2 ≤ 1) (B : Matrix (Fin Lg.m) (Fin Lg.m) R)
+    (G : List Bool → List Bool → R) (c : R)
+    (hB : ∀ bo bi : List Bool, bo.length = Lg.qubits.length → bi.length = Lg.qubits.length →
+      gateAmp B Lg PS.tt bo bi = c * G bo bi)
+    (ps : PS) (hps : ∀ b : List Bool, b.length = L.qubits.length → ps.eval (encode L b) = true) :
+    gateTable (PM.place P.g B) L ps = c • placedGate P G := by
+  ext i j
+  have hi := getD_basis_length _ i
+  have hj := getD_basis_length _ j
+  rw [Matrix.smul_apply, smul_eq_mul]
+  simp only [gateTable, placedGate]
+  rw [implements_place P hokg hok hh B G c hB ps _ _ hi hj]
+  simp only [hps _ hi, true_and]
+
+/-- **a heralded catalog gate placed in a processor is a `GateImpl`** that `heralded_circuit_implements`
+accepts: local on the image of the placement, heralded, table `c • placedGate` -/
+theorem gateImpl_place_ok [CommRing R] {Lg L : Layout} (P : Placement Lg L) (hokg : Lg.ok = true)
+    (hok : L.ok = true) (hh : ∀ p ∈ L.heralds, p.2 ≤ 1) (B : Matrix (Fin Lg.m) (Fin Lg.m) R)
+    (G : List Bool → List Bool → R) (c : R)
+    (hB : ∀ bo bi : List Bool, bo.length = Lg.qubits.length → bi.length = Lg.qubits.length →
+      gateAmp B Lg PS.tt bo bi = c * G bo bi)
+    (hN : NoLeak Lg B)
+    (ps : PS) (hps : ∀ b : List Bool, b.length = L.qubits.length → ps.eval (encode L b) = true) :
+    (⟨List.ofFn fun a : Fin Lg.m => (P.f a).val, PM.place P.g B, placedGate P G, c⟩ : GateImpl L R).Ok ps :=
+  ⟨localOn_placement P B, noLeak_place P hokg hok B hN, gateTable_place P hokg hok hh B G c hB ps hps⟩
+
 /-! ### non-vacuity: the post-processed CNOT with control on qubit 2 and data on qubit 0 of a 3-qubit
 processor (non-adjacent, reversed), its heralds on modes 6, 7 -/
 
 def exL : Layout := ⟨8, [0, 2, 4], [(6, 0), (7, 0)]⟩
 
-def exPlacement : Placement ppLayout exL where
+def exPlacement : Placement ⟨6, [0, 2], [(4, 0), (5, 0)]⟩ ⟨8, [0, 2, 4], [(6, 0), (7, 0)]⟩ where
   φ := fun a => [4, 5, 0, 1, 6, 7].getD a 0
   g := (![some 2, some 3, none, none, some 0, some 1, some 4, some 5] : Fin 8 → Option (Fin 6))
   sel := [2, 0]
   φ_lt := by decide
-  inv := by unfold Function.IsPartialInv; decide
+  inv := by
+    unfold Function.IsPartialInv
+    change ∀ (x : Fin 6) (y : Fin 8), _
+    decide
   sel_length := rfl
   sel_lt := by decide
   qubit := by decide
   herald := by decide
+
+/-- the same, typed with the named layouts -/
+def exPlacement' : Placement ppLayout exL := exPlacement
 
 example : exL.ok = true ∧ (∀ p ∈ exL.heralds, p.2 ≤ 1) ∧ exPlacement.bits [true, false, true] = [true, true] := by
   decide
